@@ -231,11 +231,35 @@ pub fn sectors(src: &[u8]) -> Vec<Span> {
     (0..src.len()).step_by(16).map(|s| Span(s, (s + 16).min(src.len()))).collect()
 }
 
-pub const SINGLE_KINDS: [&str; 18] = [
+pub const SINGLE_KINDS: [&str; 19] = [
     "eof", "torn_tail", "lost_token", "lost_line", "lost_sector", "dup_token", "dup_line", "swap_tokens", "swap_lines",
     "bit_flip", "byte_subst", "crlf", "token_subst", "token_insert", "own_subst", "line_insert", "splice_eol",
-    "literal_boundary",
+    "literal_boundary", "nest",
 ];
+
+/// Wrappers an operand is nested in by the "nest" kind ({F} = a function name of the program), and the depths.
+/// Valid or near-valid programs whose expressions nest 2..34 deep: the parser, the Pratt parser and the
+/// generator recurse per level, and the generator evaluates 16-bit right-hand sides once per byte.
+pub const NEST_WRAPPERS: [(&str, &str); 8] =
+    [("(", ")"), ("(X, ", ")"), ("!(", ")"), ("-(", ")"), ("~(", ")"), ("(1 ? ", " : 2)"), ("{F}(", ")"), ("(Y = ", ")")];
+pub const NEST_DEPTHS: [usize; 5] = [2, 6, 14, 24, 34];
+
+/// first identifier of the program that is followed by "(" and is not a keyword: something callable
+pub fn callable_name(src: &[u8]) -> Option<String> {
+    const KEYWORDS: [&str; 16] =
+        ["if", "while", "for", "switch", "sizeof", "asm", "strobe", "load", "store", "csleep", "return", "aligned", "scattered", "do", "else", "main"];
+    let t = tokens(src);
+    for w in t.windows(2) {
+        let a = &src[w[0].0..w[0].1];
+        if &src[w[1].0..w[1].1] == b"(" && a.first().map(|c| c.is_ascii_alphabetic() || *c == b'_').unwrap_or(false) {
+            let name = String::from_utf8_lossy(a).to_string();
+            if !KEYWORDS.contains(&name.as_str()) {
+                return Some(name);
+            }
+        }
+    }
+    None
+}
 
 /// Values an integer literal is retyped as (range boundaries of char, short, i32 and beyond).
 pub const BOUNDARY: [&str; 16] = [
@@ -302,6 +326,7 @@ pub fn space(kind: &str, src: &[u8]) -> usize {
         "line_insert" => (n + 1) * LINES.len(),
         "splice_eol" => line_ends(src).len(),
         "literal_boundary" => int_tokens(src).len() * BOUNDARY.len(),
+        "nest" => int_tokens(src).len() * NEST_WRAPPERS.len() * NEST_DEPTHS.len(),
         _ => 0,
     }
 }
@@ -361,6 +386,16 @@ pub fn nth(kind: &str, src: &[u8], idx: usize) -> SrcFault {
             } else {
                 SrcFault::InsertRaw(e, "\\".to_string())
             }
+        }
+        "nest" => {
+            let per = NEST_WRAPPERS.len() * NEST_DEPTHS.len();
+            let t = int_tokens(src)[idx / per];
+            let (pre, post) = NEST_WRAPPERS[(idx % per) / NEST_DEPTHS.len()];
+            let depth = NEST_DEPTHS[idx % NEST_DEPTHS.len()];
+            let f = callable_name(src).unwrap_or_else(|| "main".to_string());
+            let pre = pre.replace("{F}", &f);
+            let tok = String::from_utf8_lossy(&src[t.0..t.1]).to_string();
+            SrcFault::TokenSubst(t.0, t.1, format!("{}{}{}", pre.repeat(depth), tok, post.repeat(depth)))
         }
         "literal_boundary" => {
             let t = int_tokens(src)[idx / BOUNDARY.len()];
